@@ -25,6 +25,12 @@ def put(s, name, body):
     if b in s:
         return s[:s.index(b) + len(b)] + "\n" + body + "\n" + s[s.index(e):]
     return s.replace(name + "_TABLE", f"{b}\n{body}\n{e}")
+rows = ["| ID | tier | level | evaluations | distinct non-trivial | states | transitions | executions of the real code | exhaustive | bound completed | known-finding cases | wall s |", "|----|----|----|----|----|----|----|----|----|----|----|----|"]
+for ef in sorted(glob.glob(f"{V}/evidence/C*.json")):
+    e = json.load(open(ef)); c = e["coverage"]
+    rows.append(f"| {e['property_id']} | {e['tier']} | {e['level']} | {c.get('evaluations')} | {c.get('distinct_nontrivial')} | {c.get('states','')} | {c.get('transitions','')} | {c.get('traces_validated_against_impl','')} | {c.get('exhaustive')} | {c.get('bound_completed')} | {sum((c.get('known_findings_matched') or {}).values())} | {e['wall_s']} |")
+etab = "\n".join(rows)
+s = put(s, "EVIDENCE", etab)
 s = put(s, "FINDINGS", ftab)
 s = put(s, "DETECTION", dtab)
 open(f"{V}/DESIGN.md", "w").write(s)
